@@ -252,6 +252,17 @@ def install(eng):
             else:
                 yield st1, Raise(Exc(TypeError, ("type doesn't define __trunc__",)))
 
+    @reg(__import__("operator").neg)
+    def m_neg(eng, st, args, kw):
+        # operator.neg(x) is -x (documented)
+        import ast as _ast
+
+        v = args[0]
+        if not isinstance(v, SV):
+            yield st, -v
+            return
+        yield from ops.unary(eng, _ast.USub(), v, st)
+
     @reg(math.floor)
     def m_floor(eng, st, args, kw):
         t = eng.lift(args[0], st)
